@@ -199,3 +199,8 @@ Definition propfail_C05S (cs : list scan_case) : list nat :=
                                                  | Some gi => check_C05_cache (mk_ctx (sc_snap c) gi) (gi_state gi) (og_state g)
                                                               && check_C07_exact (mk_ctx (sc_snap c) gi) (og_calls g)
                                                  | None => false end) (sc_obs c))) cs 0.
+
+(* C13, scan side: utilisation is requests over the capacity of the untainted, uncordoned nodes — the decision taken on it (band,
+   acted-on scale-up, recovery below the minimum) is compared and judged with the classification the property defines *)
+Definition mismatches_C13S := mism false pi_decision.
+Definition propfail_C13S := pfail (fun x calls => check_C06_group x calls && check_up_attempted x calls && check_C03_group x calls).
